@@ -71,7 +71,10 @@ pub fn run(ctx: &mut Ctx) {
             lists.push((0..n).map(|_| r.pick(&names).clone()).collect());
         }
     }
-    let bindsets: Vec<Vec<&str>> = vec![vec![], vec!["only"], vec!["a", "b", "c"], vec!["two words", "x y z"]];
+    let bindsets: Vec<Vec<&str>> = vec![vec![], vec!["only"], vec!["a", "b", "c"], vec!["two words", "x y z"],
+        // every bound name is spelled like an entry of the instruction list / like a literal (a generator that
+        // avoids such names has nothing left to choose from and must still return a BOUND name)
+        vec!["INTEGER.+", "NOOP"], vec!["EXEC.CMD"], vec!["TRUE", "1", "FALSE"]];
     // (1) exact size
     let mut sizes: Vec<usize> = (1..=80).collect();
     sizes.extend([235, 1034]);
